@@ -357,4 +357,7 @@ def r07_clip(ctx):
     ctx.borrow(c08.r08_clip, 'R07.11')
 
 
-RULES = [('R07.11', r07_clip), ('R07.10', r07_fixed_point), ('R07.8', r07_vlq), ('R07.9', r07_codec), ('R07-induction', r07_induction), ('R07-scenarios', r07_scenarios), ('R07.5', r07_5), ('R07.4', r07_4), ('R07-file', r07_file), ('R07.1-time', r07_1_time)]
+RULES = [('R07.11', r07_clip), ('R07.10', r07_fixed_point), ('R07.8', r07_vlq), ('R07.9', r07_codec), ('R07-induction', r07_induction), ('R07-scenarios', r07_scenarios), ('R07.5', r07_5), ('R07.4', r07_4), ('R07-file', r07_file)]
+# (r07_1_time - "the delta parameter reaches every returned message", a def-use rule over the reader's return paths - is retired:
+# the reader scenarios and the one-step rules compare the time of every event kind, the unknown meta type included, and do
+# not care whether the time is passed to the constructor or assigned afterwards)
